@@ -23,6 +23,7 @@ PATTERNS = {
     "P4": [W("foo"), P("a"), W("bar")],
     "P5": [W("bar"), P("a")],
     "P6": [W("foo"), W("mit"), P("a")],
+    "P7": [W("foo"), W("bar")],                      # words only; `bar` is also the name of a variable (argument form "varword")
     "N1": [W("foo"), P("a"), W("nicht")],          # used with a negation marker: "foo <a> <!nicht>"
 }
 TYPINGS = {  # name -> {param: (type, ref)}
@@ -41,6 +42,8 @@ def variants():
         for tn, ty in TYPINGS.items():
             if len(params) == 1 and tn in ("ZT", "TZ", "GZ", "Tr"):
                 continue
+            if len(params) == 0 and tn != "Z":
+                continue
             vs.append((pn, tn))
     return vs
 
@@ -56,14 +59,19 @@ def render_fn(name, pn, tn, public=False):
         if not ref:
             return TN[t]
         return {"Z": "Zahlen Referenz", "T": "Text Referenz", "G": "T Referenz", "C": "Buchstaben Referenz"}[t]
-    if len(params) == 1:
+    if len(params) == 0:
+        ps = ""
+    elif len(params) == 1:
         ps = "mit dem Parameter %s vom Typ %s" % (params[0], ptype(params[0]))
     else:
         ps = "mit den Parametern %s vom Typ %s" % (" und ".join(params), " und ".join(ptype(p) for p in params))
     alias = " ".join(x["w"] if x["k"] == "w" else "<%s>" % x["p"] for x in pat)
     if pn == "N1":
         alias = "foo <a> <!nicht>"
-    return ["Die %s%sFunktion %s %s, gibt einen Wahrheitswert zurück, macht:" % ("öffentliche " if public else "", "generische " if generic else "", name, ps), "\tGib wahr zurück.",
+    head = "Die %s%sFunktion %s %s, gibt einen Wahrheitswert zurück, macht:" % ("öffentliche " if public else "", "generische " if generic else "", name, ps)
+    if not params:
+        head = "Die %sFunktion %s gibt einen Wahrheitswert zurück, macht:" % ("öffentliche " if public else "", name)
+    return [head, "\tGib wahr zurück.",
             "Und kann so benutzt werden:", '\t"%s"' % alias], params
 
 
@@ -88,6 +96,8 @@ ARGS = {  # form -> (type -> source text maker(id))
     "field": {"Z": lambda i: "(zahl von p%d)" % i, "T": lambda i: "(wort von p%d)" % i},
     # ... and a character of a Text: a Buchstabe, but NOT something a Buchstaben Referenz can point to
     "textchar": {"C": lambda i: "(vt%d an der Stelle 1)" % i},
+    # a variable whose NAME is a word of some alias pattern: as an argument it is an argument, where the pattern has the word it is the word
+    "varword": {"Z": lambda i: "bar"},
 }
 ARGTEXT = {}   # text as the AST dump shows it -> id, filled per program
 
@@ -113,9 +123,13 @@ def sites_for(pop_patterns, rng, tier):
                 if x is None:
                     f, t = combo[k]
                     k += 1
-                    items.append({"k": "a", "id": k, "t": t, "form": f})
+                    items.append(dict({"k": "a", "id": k, "t": t, "form": f}, **({"w": "bar"} if f == "varword" else {})))
                 else:
                     items.append(W(x))
+            # `bar` is the name of a declared variable: wherever it stands it is the word and (possibly) an argument; one such item per site
+            items = [dict(k="a", id=50 + pos, t="Z", form="varword", w="bar") if (it.get("w") == "bar") else it for pos, it in enumerate(items)]
+            if sum(1 for it in items if it.get("form") == "varword") > 1:
+                continue
             sites.append(items)
     return sites
 
@@ -123,7 +137,7 @@ def sites_for(pop_patterns, rng, tier):
 def render_site(items):
     out = []
     for it in items:
-        out.append(it["w"] if it["k"] == "w" else ARGS[it["form"]][it["t"]](it["id"]))
+        out.append(it["w"] if (it["k"] == "w" or it.get("form") == "varword") else ARGS[it["form"]][it["t"]](it["id"]))
     return " ".join(out)
 
 
@@ -149,7 +163,7 @@ def run(tier):
     jobs, metas = [], []
     for pi, pop in enumerate(pops):
         imported = pi % 3 == 2 and len(pop) > 1        # every third population: the first function lives in an imported module
-        lines = ["Die Zahl vz1 ist 1.", "Die Zahl vz2 ist 2.", 'Der Text vt1 ist "a".', 'Der Text vt2 ist "b".', "Der Buchstabe vc1 ist 'x'.", "Der Buchstabe vc2 ist 'y'.",
+        lines = ["Die Zahl bar ist 9.", "Die Zahl vz1 ist 1.", "Die Zahl vz2 ist 2.", 'Der Text vt1 ist "a".', 'Der Text vt2 ist "b".', "Der Buchstabe vc1 ist 'x'.", "Der Buchstabe vc2 ist 'y'.",
                  "Die Zahlen Liste lz1 ist eine Liste, die aus 1, 2 besteht.", "Die Zahlen Liste lz2 ist eine Liste, die aus 3, 4 besteht.",
                  'Die Text Liste lt1 ist eine Liste, die aus "a", "b" besteht.', 'Die Text Liste lt2 ist eine Liste, die aus "c", "d" besteht.',
                  "Die Buchstaben Liste lc1 ist eine Liste, die aus 'a', 'b' besteht.", "Die Buchstaben Liste lc2 ist eine Liste, die aus 'c', 'd' besteht.",
@@ -215,7 +229,8 @@ def run(tier):
                 fc = [c for c in byline.get(ln, []) if c["kind"] == "func"]
                 if fc:
                     c = fc[0]      # the outermost call of the line comes first in visiting order
-                    got = dict(fn=c["name"], neg=any(x["kind"] == "not" for x in byline.get(ln, [])), args={p: arg_id(t) for p, t in (c["args"] or {}).items()})
+                    vw = next((it["id"] for it in s if it.get("form") == "varword"), 0)
+                    got = dict(fn=c["name"], neg=any(x["kind"] == "not" for x in byline.get(ln, [])), args={p: (vw if t.strip("() ") == "bar" else arg_id(t)) for p, t in (c["args"] or {}).items()})
             recs.append(dict(e="site", site=s, got=got, line=ln))
     orig = vlib.split_chunks
     try:
